@@ -1,0 +1,18 @@
+//go:build verif
+
+package bondmachine
+
+// Verification hooks (build tag "verif" only). VerifHook, when set, is called at the
+// synchronisation points of the simulator: "pre" (VM.Step, before the tokens are handed out),
+// "start"/"end" (a processor worker before/after its Step), "got" (VM.Step received a worker's
+// result), "post" (VM.Step, after the barrier).
+var VerifHook func(kind string, vm *VM, proc int)
+
+func verifPoint(kind string, vm *VM, proc int) {
+	if h := VerifHook; h != nil {
+		h(kind, vm, proc)
+	}
+}
+
+// VerifTick returns the absolute tick counter of the VM.
+func (vm *VM) VerifTick() uint64 { return vm.abs_tick }
